@@ -233,7 +233,10 @@ class Run:
                 r = reals[idx]
             else:
                 try:
-                    r = p.real(op, args)
+                    with time_limit():
+                        r = p.real(op, args)
+                except _Timeout:
+                    r = f"raw Timeout(no answer within {CALL_LIMIT:.0f} s)"
                 except Exception as e:  # the harness glue itself failed: never a verdict, but never silent
                     r = "harness-error " + type(e).__name__ + ": " + str(e)[:120]
             if r == core.RESOURCE_LIMIT:
@@ -429,6 +432,39 @@ class Run:
         return 1 if viol_lines else 0
 
 
+class _Timeout(BaseException):
+    """raised by the per-call timer (a BaseException, so that `except Exception` in a law cannot swallow it)"""
+
+
+CALL_LIMIT = float(os.environ.get("VERIF_CALL_LIMIT", "60"))     # seconds one law evaluation / implementation call may take
+
+
+class time_limit:
+    """a change to the library that makes a call loop forever must end in a verdict, not in a hung check"""
+
+    def __init__(self, seconds=None):
+        self.seconds = CALL_LIMIT if seconds is None else seconds
+
+    def _fire(self, signum, frame):
+        raise _Timeout()
+
+    def __enter__(self):
+        import signal
+        import threading
+        self.active = threading.current_thread() is threading.main_thread() and hasattr(signal, "setitimer")
+        if self.active:
+            self.old = signal.signal(signal.SIGALRM, self._fire)
+            signal.setitimer(signal.ITIMER_REAL, self.seconds)
+        return self
+
+    def __exit__(self, *exc):
+        if self.active:
+            import signal
+            signal.setitimer(signal.ITIMER_REAL, 0)
+            signal.signal(signal.SIGALRM, self.old)
+        return False
+
+
 def _law_shard(arg):
     """evaluate n generated law instances (own PRNG stream); top-level so that it can run in a worker process"""
     pid, seed, n = arg
@@ -444,7 +480,10 @@ def _law_shard(arg):
         count += 1
         per_law[law] += 1
         try:
-            ok, detail = p.check_law(law, inp)
+            with time_limit():
+                ok, detail = p.check_law(law, inp)
+        except _Timeout:
+            ok, detail = False, f"the call did not return within {CALL_LIMIT:.0f} s"
         except Exception as e:
             ok, detail = False, "harness-error " + type(e).__name__ + ": " + str(e)[:200]
         if not ok:
@@ -466,7 +505,10 @@ def _corr_shard(arg):
     for c in p.gen_cases(rng, n):
         op, args = c
         try:
-            r = p.real(op, args)
+            with time_limit():
+                r = p.real(op, args)
+        except _Timeout:
+            r = f"raw Timeout(no answer within {CALL_LIMIT:.0f} s)"
         except Exception as e:
             r = "harness-error " + type(e).__name__ + ": " + str(e)[:120]
         out.append((op, args, r))
@@ -507,6 +549,28 @@ def replay(prop: Prop, path):
     return 0
 
 
+def _watchdog(pid, tier, seed):
+    """whole-run limit: a generator or the glue hanging on a changed library (an input on which the library no longer
+    terminates) ends the check with a verdict.  Far above what a run takes on the unchanged tree (quick < 3 min, thorough
+    < 10 min even on a loaded machine)."""
+    import threading
+    limit = float(os.environ.get("VERIF_RUN_LIMIT", "1500" if tier == "quick" else "7200"))
+
+    def fire():
+        try:
+            (core.ROOT / "replays").mkdir(exist_ok=True)
+            path = core.ROOT / "replays" / f"{pid}-{seed}-timeout.json"
+            path.write_text(json.dumps({"property": pid, "kind": "timeout", "seed": seed, "tier": tier,
+                                        "no_longer_checks": [{"kind": "timeout", "name": "run",
+                                                              "detail": f"the check did not finish within {limit:.0f} s"}]}, indent=1))
+            print(f"VIOLATION property={pid} replay={path} no-failing-input-found", flush=True)
+        finally:
+            os._exit(1)
+    t = threading.Timer(limit, fire)
+    t.daemon = True
+    t.start()
+
+
 def main(argv):
     if len(argv) < 2:
         print(__doc__)
@@ -518,6 +582,7 @@ def main(argv):
     tier = argv[2] if len(argv) > 2 else os.environ.get("VERIF_TIER", "quick")
     seed = int(os.environ.get("VERIF_SEED", "0"))
     run = Run(prop, tier, seed)
+    _watchdog(pid, tier, seed)
     ncorr, nlaw = prop.budget[tier]
     run.obligations()
     if run.driver_ok:
